@@ -34,7 +34,7 @@ ASSUMPTIONS = [
     "container objects (object streams, xref streams) are defined objects and expected in get_objids()",
     "damage = startxref / xref keyword / subsection header / entry format / entry offset; trailer damage is outside 'cross-reference table'",
 ]
-PROBES = ["chain of 260 to 1000 updates", "chain of more than 1000 updates", "free entry for a never-defined number", "cross-reference stream update without entries", "form:table", "form:stream", "form:hybrid", "packed objects", "override of packed by direct", "override of direct by packed", "multi-range Index", "nested getobj for indirect Length", "eviction happened", "caching off", "startxref boundary placed", "crlf eol", "cr-only eol", "bytes after %%EOF", "repository sample", "zero-width type field", "hybrid with free entries"]
+PROBES = ["history read under settings.STRICT", "chain of 260 to 1000 updates", "chain of more than 1000 updates", "free entry for a never-defined number", "cross-reference stream update without entries", "form:table", "form:stream", "form:hybrid", "packed objects", "override of packed by direct", "override of direct by packed", "multi-range Index", "nested getobj for indirect Length", "eviction happened", "caching off", "startxref boundary placed", "crlf eol", "cr-only eol", "bytes after %%EOF", "repository sample", "zero-width type field", "hybrid with free entries"]
 TIERS = {
     "quick": {"batches": 16, "runs": 1200, "budget_s": 45},
     "thorough": {"batches": 128, "runs": 2500, "budget_s": 900},
@@ -702,6 +702,24 @@ def run(tape, ctx, item=None):
             seen.setdefault(d.sig, d)
         tape.note(cfg)
         return Outcome(list(seen.values()), scen=repr((bad, cfg)), nontrivial=True, sample={"mode": "damage", "config": cfg, "file_tail": repr(bad[-160:])})
+    if t.coin(8, 100, "knob.strict"):
+        # well-formed histories read the same under the library's strict setting
+        from pdfminer import settings as _settings
+
+        ctx.probe("history read under settings.STRICT")
+        _settings.STRICT = True
+        try:
+            out = run_history(t, ctx, devs)
+        finally:
+            _settings.STRICT = False
+        for d in out.devs:
+            d.msg = "under settings.STRICT: " + d.msg
+        return out
+    return run_history(t, ctx, devs)
+
+
+def run_history(t, ctx, devs):
+    tape = t
     revs = gen_history(t)
     overridden = any(set(rv["defs"]) & set().union(*[set(p["defs"]) for p in revs[:k]]) for k, rv in enumerate(revs) if k)
     scen = []
